@@ -58,11 +58,13 @@ func toLogRecord(l Log) reftable.LogRecord {
 func (w *World) writeFn(t *simrt.Task, cr *CallRec, tx *TxnSpec, base func() uint64) func(wr *reftable.Writer) error {
 	return func(wr *reftable.Writer) error {
 		b := base()
+		bad := ""
 		if tx.Bad == "stale-index" && b > 1 {
 			b--
+			bad = tx.Bad
 		}
 		if tx.Bad == "closure-error" {
-			cr.Written = append(cr.Written, WrittenTable{Txn: tx.ID, Base: b, Rejected: true})
+			cr.Written = append(cr.Written, WrittenTable{Txn: tx.ID, Base: b, Rejected: true, Bad: tx.Bad})
 			return fmt.Errorf("harness: closure refuses")
 		}
 		var refs []Ref
@@ -76,6 +78,7 @@ func (w *World) writeFn(t *simrt.Task, cr *CallRec, tx *TxnSpec, base func() uin
 			refs, logs = Materialise(tx, b, w.Spec.Cfg, st)
 			if tx.Bad == "big" {
 				refs = append(refs, Ref{Name: "zzz/big", Idx: b, Kind: RefSym, Target: strings.Repeat("x", 70000)})
+				bad = tx.Bad
 			}
 		})
 		span := tx.Span
@@ -83,7 +86,10 @@ func (w *World) writeFn(t *simrt.Task, cr *CallRec, tx *TxnSpec, base func() uin
 			span = 1
 		}
 		wr.SetLimits(b, b+uint64(span)-1)
-		wt := WrittenTable{Txn: tx.ID, Base: b, Refs: refs, Logs: logs, Empty: len(refs)+len(logs) == 0}
+		wt := WrittenTable{Txn: tx.ID, Base: b, Refs: refs, Logs: logs, Empty: len(refs)+len(logs) == 0, Bad: bad}
+		if wt.Empty && bad == "stale-index" {
+			wt.Bad = "" // a transaction without records is never written, whatever its limits
+		}
 		for _, r := range refs {
 			rec := toRefRecord(r)
 			if err := wr.AddRef(&rec); err != nil {
@@ -111,13 +117,11 @@ func (w *World) predictedRejection(cr *CallRec, against *State) (bool, string) {
 	if cr.Spec == nil {
 		return false, ""
 	}
-	for i := range cr.Spec.Txns {
-		if cr.Spec.Txns[i].Bad != "" {
-			return true, "bad:" + cr.Spec.Txns[i].Bad
-		}
-	}
 	var tabs [][]Ref
 	for _, wt := range cr.Written {
+		if wt.Bad != "" {
+			return true, "bad:" + wt.Bad
+		}
 		tabs = append(tabs, wt.Refs)
 		if !w.Spec.Cfg.ExactLog {
 			for _, l := range wt.Logs {
@@ -434,9 +438,9 @@ func (w *World) afterOp(t *simrt.Task, hs *HandleState, cr *CallRec, before dirS
 	}
 	// accepted although the statement predicts rejection (writer domain)
 	if isAdd && cr.Class == "ok" && cr.Appends > 0 {
-		for i := range cr.Spec.Txns {
-			if b := cr.Spec.Txns[i].Bad; b == "stale-index" || b == "big" || b == "closure-error" {
-				w.violate("C04", "accepted-bad", b, "a transaction that must be rejected was committed")
+		for _, wt := range cr.Written {
+			if wt.Bad != "" {
+				w.violate("C04", "accepted-bad", wt.Bad, "a transaction that must be rejected was committed")
 			}
 		}
 	}
